@@ -28,7 +28,8 @@ FLOORS = {'order_comparisons': 600, 'nontrivial_layers': 150,
           'hostile_rng_runs': 40, 'hostile_rng_yields': 400,
           'multi_directory_worlds': 30, 'other_hashseed_runs': 60,
           'shuffle_contract_evals': 300,
-          'worlds_with_parametrised_instances': 20}
+          'worlds_with_parametrised_instances': 20,
+          'seed_and_switch_apart_runs': 40}
 BATCH_TIMEOUT = 400
 
 PYTHONS = ['/root/.pyenv/versions/3.9.18/bin/python',
@@ -267,6 +268,20 @@ def run_case(case):
         sopts = {'shuffle_seed': rep_seed}
         # same seed again, sequential
         compare(common.run_world(spec, None, sopts, root=root), 'seq2')
+        # the seed in the defaults of the script, --shuffle typed on the
+        # command line (and the other way round)
+        if rng.random() < 0.35:
+            if rng.random() < 0.5:
+                o = {'shuffle': True, 'shuffle_seed_alone': rep_seed,
+                     '_defaults': ['shuffle_seed_alone'], '_order': 3}
+            else:
+                o = {'shuffle': True, 'shuffle_seed_alone': rep_seed,
+                     '_defaults': ['shuffle'], '_order': 3}
+            if rng.random() < 0.4 and len(disc) >= 1:
+                o['processes'] = rng.randint(2, len(disc) + 1)
+            compare(common.run_world(spec, None, o, root=root),
+                    'seed-and-switch-apart')
+            C('seed_and_switch_apart_runs')
         # same seed while another thread of the process uses the global
         # random functions (and the GIL is handed over inside the shuffle)
         if rng.random() < 0.4:
